@@ -156,7 +156,8 @@ func (e *Exec) intrinsic(name string, fn *ssa.Function, args []Value) (Value, bo
 		}
 		ea := errRoot(a)
 		if ea == nil {
-			e.fail("%s on an unmodelled error value %T", name, a.v)
+			// an error value of some other Go type (not a registered sentinel, wrapping nothing)
+			return tb.ff, true
 		}
 		for _, t := range targets {
 			et := errRoot(t)
@@ -540,6 +541,30 @@ func (e *Exec) bigMethod(m string, args []Value) Value {
 			e.fail("big.Int.%s overflows the %d-bit model", m, bigW)
 		}
 		z.v = tb.Extract(bigW-1, 0, r)
+		return args[0]
+	case "Exp":
+		x, y := e.bigOf(args[1], m), e.bigOf(args[2], m)
+		mp, _ := args[3].(*PtrV)
+		if !x.v.isConst() || !y.v.isConst() || (mp != nil && mp.c != nil) {
+			e.fail("big.Int.Exp on symbolic or modular arguments")
+		}
+		r := new(big.Int).Exp(signedBig(x.v.c, bigW), signedBig(y.v.c, bigW), nil)
+		if r.BitLen() >= bigW-1 {
+			e.fail("big.Int.Exp result exceeds the model width")
+		}
+		z.v = tb.BVb(r, bigW)
+		return args[0]
+	case "Lsh":
+		x := e.bigOf(args[1], m)
+		n, ok := args[2].(*Term)
+		if !ok || !n.isConst() || !x.v.isConst() {
+			e.fail("big.Int.Lsh on symbolic arguments")
+		}
+		r := new(big.Int).Lsh(signedBig(x.v.c, bigW), uint(n.i64()))
+		if r.BitLen() >= bigW-1 {
+			e.fail("big.Int.Lsh result exceeds the model width")
+		}
+		z.v = tb.BVb(r, bigW)
 		return args[0]
 	case "String", "Text":
 		p := tb.UF("bigstr", 8*80, z.v)
